@@ -29,6 +29,9 @@ func runC05(c *Check, tier string) {
 	ruleWritePathErrors(c, "R05i")
 	// nothing of a failed target is stored: the store path
 	useFamily(c, "R05j", famStore, 20)
+	// the command's exit status reaches the Go side
+	ruleWrapperStatus(c, "R05k")
+	ruleRerunFailureFailsDependant(c, "R05l")
 	// a target that failed (also by timeout) is recorded as failed: the routine reports every outcome but cancellation
 	if w := findWalker(c, "R05h"); w != nil {
 		shareRule(c, "R05h", "after the callback returned the node routine reports a completion on every path unless the error is context.Canceled (same obligation as R04c)", 1, "R04c", func(sub *Check) { ruleR04c(sub, w) }, func(k string) bool { return strings.Contains(k, "completion-on-every-exit") })
@@ -437,4 +440,92 @@ func firstOrigin(v ssa.Value) ssa.Value {
 		return o[0]
 	}
 	return v
+}
+
+// R05l: a dependency whose re-run failed fails every dependant that asked for it. Under load_outputs=minimal
+// the dependency loader re-runs a dependency whose outputs cannot be restored; the gate executes the dependant
+// only when the loader returned nil (R15b). So every call in the loader that can end in the executing method
+// has to hand the execution error back to the loader's own return — for every caller, not only the first.
+func ruleRerunFailureFailsDependant(c *Check, rule string) {
+	c.Rule(rule, "in the dependency loader every call that reaches the executing method returns its error through return values up to the loader's return (no re-run behind a once/memo/function value whose error only one caller sees); the recursive load forwards its error as well", 1)
+	ldo := anchor(c, rule, "execution", "Executor", "LoadDependencyOutputs")
+	ex := findExec(c, rule)
+	if ldo == nil || ex == nil {
+		return
+	}
+	fname := c.P.FuncName(ldo)
+	lifted, leaks := liftedSites(c, ldo, func(s ssa.CallInstruction) bool {
+		for _, cal := range c.G.CalleesOf(s) {
+			if cal == ex.ExecMethod {
+				return true
+			}
+		}
+		return false
+	}, 0)
+	for _, l := range leaks {
+		c.Bad(rule, "rerun-error-forwarded/"+fname, "a helper of the dependency loader loses the error of the re-run: "+l, "-")
+	}
+	isLifted := map[ssa.CallInstruction]bool{}
+	for _, s := range lifted {
+		isLifted[s] = true
+	}
+	n := 0
+	for _, s := range sitesReaching(c, ldo, fnSet(ex.ExecMethod)) {
+		rec := false
+		for _, cal := range c.G.CalleesOf(s) {
+			if cal == ldo {
+				rec = true
+			}
+		}
+		n++
+		what := "re-run"
+		if rec {
+			what = "recursive-load"
+		}
+		key := what + "-error-forwarded/" + fname
+		switch {
+		case !rec && !isLifted[s] && strings.HasSuffix(engine.CalleeName(s), "errgroup.Group).Go") && returnsGroupWait(ldo, s):
+			c.OK(rule, key, "the re-run runs in an errgroup whose Wait() result is what the loader returns", c.P.InstrPos(s))
+		case !rec && !isLifted[s]:
+			c.Bad(rule, key, "the re-run of a dependency is started from a function value handed to "+engine.CalleeName(s)+", so its error does not come back as a return value: a caller for which the function is not run again (sync.Once, a memo) sees no error and executes the dependant of a failed dependency", c.P.InstrPos(s))
+		case engine.ErrResultIndex(s.Common().Signature()) < 0 || !forwardsError(ldo, s):
+			c.Bad(rule, key, "after this call failed the dependency loader can still return nil: the dependant of a dependency whose re-run failed is executed", c.P.InstrPos(s))
+		default:
+			c.OK(rule, key, "when the call fails the loader returns a non-nil error on every path", c.P.InstrPos(s))
+		}
+	}
+	if n == 0 {
+		c.Unknown(rule, "re-run-error-forwarded/"+fname, "no call in the dependency loader reaches the executing method", "-")
+	}
+}
+
+// returnsGroupWait: every return of fn reachable from the Go call yields the Wait() result of the same group
+// or an error known to be non-nil.
+func returnsGroupWait(fn *ssa.Function, goCall ssa.CallInstruction) bool {
+	if len(goCall.Common().Args) == 0 {
+		return false
+	}
+	grp := goCall.Common().Args[0]
+	idx := engine.ErrResultIndex(fn.Signature)
+	if idx < 0 {
+		return false
+	}
+	ok := true
+	engine.PathExists(fn, goCall, func(in ssa.Instruction) bool {
+		r, isRet := in.(*ssa.Return)
+		if !isRet || in.Parent() != fn {
+			return false
+		}
+		if definitelyNonNilReturn(fn, r) {
+			return false
+		}
+		for _, o := range engine.Origins(r.Results[idx]) {
+			call, _ := engine.CallOf(o)
+			if call == nil || !strings.HasSuffix(engine.CalleeName(call), "errgroup.Group).Wait") || len(call.Common().Args) == 0 || !sameVar(call.Common().Args[0], grp) {
+				ok = false
+			}
+		}
+		return false
+	}, engine.PathQuery{Shallow: true})
+	return ok
 }
